@@ -381,7 +381,25 @@ fn execute(ctx: &mut Ctx, case: &Case, reqs: &mut Vec<Value>) -> Exec {
     let mut args_b = case.args.clone();
     args_b.queue = Some(qa[..(d + case.extra).min(qa.len())].to_vec());
     let b = issue(&args_b);
-    let c = issue(&args_b);
+    // the third issuance comes, for every other case, from an issuer instance that has already issued another credential in the
+    // JSON format (or in the compact one) with a queue of its own: an instance is reusable, the outcome is that of a fresh one
+    let c = if ctx.evaluations % 2 == 0 {
+        let mut warm = args_b.clone();
+        warm.claims = json!({"iss": "https://issuer.example", "exp": now() + 100000, "warm": {"a": "x, y", "b": [1, "two"]}, "up": "p"});
+        warm.strategy = Strategy::All;
+        warm.fmt = if ctx.evaluations % 4 == 0 { Fmt::Json } else { Fmt::Compact };
+        warm.holder = None;
+        warm.queue = Some((0..8).map(|k| format!("warmsalt{}", k)).collect());
+        match issue_sequence(args_b.key, args_b.alg.clone(), vec![warm, args_b.clone()]) {
+            Some(mut seq) if seq.len() == 2 => {
+                ctx.count("issuer.reused_instance(third issuance)");
+                seq.pop().unwrap()
+            }
+            _ => issue(&args_b),
+        }
+    } else {
+        issue(&args_b)
+    };
     ctx.impl_calls += 2;
     let i = reqs.len();
     reqs.push(if large { json!({"id": i, "op": "not-asked(large case)"}) } else { issue_request(i, &args_b, &b) });
